@@ -784,8 +784,8 @@ func (c *EvalCtx) evalCall(e *Expr) *V {
 		if a.K != KIface {
 			c.fail("nodeType expects an interface value")
 		}
-		eng.declare("(declare-fun pure:Node.Type (Int Int) Int)")
-		return vInt("(pure:Node.Type "+a.Tag+" "+a.Val+")", nil)
+		eng.declare("(declare-fun |pure:Node.Type| (Int Int) Int)")
+		return vInt("(|pure:Node.Type| "+a.Tag+" "+a.Val+")", c.resolveType("NodeType"))
 	case "purecall":
 		// purecall("Iface.Method", recv): result of a method declared pure on its receiver
 		if len(e.Args) < 2 || e.Args[0].Op != "str" {
@@ -825,6 +825,55 @@ func (c *EvalCtx) evalCall(e *Expr) *V {
 		}
 		p := c.intOf(e.Args[0])
 		return vBool(sAnd("(>= "+p+" "+c.old.ghost["alloc"]+")", "(< "+p+" "+st.ghost["alloc"]+")"))
+	case "onlychanged":
+		// onlychanged("Fam", i1, i2, ...): every row of the family except the listed first-level indices is as in the pre-state
+		if len(e.Args) < 1 || e.Args[0].Op != "str" {
+			c.fail("onlychanged(\"Fam\", idx...)")
+		}
+		if c.old == nil {
+			c.fail("onlychanged() needs a pre-state")
+		}
+		fam := e.Args[0].Str
+		var idx []string
+		for _, a := range e.Args[1:] {
+			idx = append(idx, c.refOf(c.eval(a), a))
+		}
+		var cs []string
+		for _, leaf := range sortedKeys(eng.compSort) {
+			if leaf == fam || strings.HasPrefix(leaf, fam+"#") {
+				lv, ls := sortLevels(eng.compSort[leaf])
+				x := mangle("q:x")
+				var ne []string
+				for _, i := range idx {
+					ne = append(ne, sNot(sEq(x, i)))
+				}
+				nw, od := st.comp(leaf, lv, ls), c.old.comp(leaf, lv, ls)
+				cs = append(cs, "(forall (("+x+" Int)) (! (=> "+sAnd(ne...)+" (= (select "+nw+" "+x+") (select "+od+" "+x+"))) :pattern ((select "+nw+" "+x+"))))")
+			}
+		}
+		return vBool(sAnd(cs...))
+	case "oldobjects":
+		// oldobjects("Fam"): rows of the family belonging to references that existed in the pre-state are unchanged
+		argc(1)
+		if e.Args[0].Op != "str" {
+			c.fail("oldobjects(\"Fam\")")
+		}
+		if c.old == nil {
+			c.fail("oldobjects() needs a pre-state")
+		}
+		{
+			fam := e.Args[0].Str
+			var cs []string
+			for _, leaf := range sortedKeys(eng.compSort) {
+				if leaf == fam || strings.HasPrefix(leaf, fam+"#") {
+					lv, ls := sortLevels(eng.compSort[leaf])
+					x := mangle("q:x")
+					nw, od := st.comp(leaf, lv, ls), c.old.comp(leaf, lv, ls)
+					cs = append(cs, "(forall (("+x+" Int)) (! (=> (< "+x+" "+c.old.ghost["alloc"]+") (= (select "+nw+" "+x+") (select "+od+" "+x+"))) :pattern ((select "+nw+" "+x+"))))")
+				}
+			}
+			return vBool(sAnd(cs...))
+		}
 	case "unchanged":
 		// unchanged(comp): heap component family identical to the pre-state
 		argc(1)
